@@ -462,11 +462,19 @@ def gen_qdms_text(run):
     return ok, wrapped, bad
 
 
-CRS = ['EPSG:3857', 'EPSG:32631', 'EPSG:3395', 'EPSG:4087', 'EPSG:2154', 'EPSG:4326', 'EPSG:5041', 'EPSG:32733']
+CRS = ['EPSG:3857', 'EPSG:32631', 'EPSG:3395', 'EPSG:4087', 'EPSG:2154', 'EPSG:4326', 'EPSG:5041', 'EPSG:32733',
+       'EPSG:4277', 'EPSG:4230']     # the last two: geographic CRSs on another datum (a degree pair that is *not* the input, C19-t2)
+
+
+SRC_THEOREMS = ['GV.C19Src.' + t for t in (
+    'convert_eq', 'toDms_eq', 'fromDms_convert_eq', 'fromDms_eq', 'zeroPadStr_eq', 'zeroPadInt_eq', 'toQdms_eq',
+    'parseFloat_seconds', 'fromQdms_convert_eq', 'fromQdms_eq', 'toQdms_dotFree',
+    'src_dms_roundtrip', 'src_dms_hemisphere', 'src_qdms_roundtrip', 'src_qdms_lengths')]
 
 
 def check(run):
     run.prove(MODULE, THEOREMS)
+    run.source_tie(['SrcDms'], 'GeoVerif.Props.C19Src', SRC_THEOREMS)
     rng = run.rng
     coords = gen_coords(run)
 
@@ -581,6 +589,10 @@ def check(run):
                 lon, lat = -5 + lon % 14, 41 + abs(lat) % 10
             if crs == 'EPSG:5041':
                 lat = 60 + abs(lat) % 30
+            if crs == 'EPSG:4277':      # OSGB36: Great Britain
+                lon, lat = -5 + lon % 6, 50.5 + abs(lat) % 7
+            if crs == 'EPSG:4230':      # ED50: continental Europe
+                lon, lat = -8 + lon % 30, 37 + abs(lat) % 25
             for op in ('proj-from', 'proj-to', 'proj-rt'):
                 lines.append(f'np.{op} {crs} {rat(lon)} {rat(lat)}')
     run.run_cases('np-proj', lines, impl, spec, model=False, known_key=known_key,
